@@ -200,12 +200,12 @@ def gen_sigargs(rnd, cls=None, invalid=False):
     cls = cls or rnd.choice(CLS)
     if cls == "csr":
         a = {"cls": "csr", "aw": rnd.choice([1, 1, 2, 3, 8, 16, 30, rnd.randint(1, 64)]),
-             "dw": rnd.choice([1, 3, 8, 8, 16, 32, 64, rnd.randint(1, 128)])}
+             "dw": rnd.choice([1, 3, 8, 8, 16, 32, 64, rnd.randint(1, 128), 257, 300])}
         if invalid:
             a[rnd.choice(["aw", "dw"])] = rnd.choice([0, -1, -5])
         return a
     if cls == "elem":
-        a = {"cls": "elem", "width": rnd.choice([0, 1, 2, 7, 8, 8, 32, 100]), "access": rnd.choice(["r", "w", "rw"])}
+        a = {"cls": "elem", "width": rnd.choice([0, 1, 2, 7, 8, 8, 32, 100, 256, 257, 300, 1000]), "access": rnd.choice(["r", "w", "rw"])}
         if invalid:
             k = rnd.randrange(3)
             if k != 1:
@@ -565,8 +565,15 @@ def spell(fs, key):
     return [ms, frozenset(ms), (m for m in ms)][v - 4]
 
 
+def _fresh(x):
+    """An int object of its own (CPython shares small ints only): equal parameters must be enough for equality,
+    wherever the two numbers came from."""
+    return int(str(x)) if type(x) is int else x
+
+
 def build_sig(a):
     from amaranth_soc import csr, wishbone, event, gpio
+    a = {k: _fresh(v) for k, v in a.items()}
     c = a["cls"]
     if c == "csr":
         return csr.Signature(addr_width=a["aw"], data_width=a["dw"])
